@@ -19,7 +19,8 @@ def feature_spec():
     paths = {
         "/plain": {"get": {"operationId": "get_plain", "responses": ok},
                    "delete": {"operationId": "delete_plain", "parameters": [P("q", "query", S)], "responses": ok},
-                   "head": {"operationId": "head_plain", "responses": ok}},
+                   "head": {"operationId": "head_plain", "responses": ok},
+                   "options": {"operationId": "options_plain", "parameters": [P("q", "query", S)], "responses": ok}},
         "/one/{id}": {"get": {"operationId": "get_one", "parameters": [P("id", "path", S, required=True)], "responses": ok}},
         "/two/{x}/mid/{y}": {"parameters": [P("x", "path", S, required=True)],
                              "get": {"operationId": "get_two", "parameters": [P("y", "path", I, required=True)], "responses": ok}},
@@ -64,6 +65,7 @@ def probes():
     out = []
     out.append(("get_plain", {}, None))
     out.append(("head_plain", {}, None))
+    out.append(("options_plain", {"q": "a b"}, None))
     out.append(("delete_plain", {"q": "v"}, None))
     out.append(("delete_plain", {}, None))
     for v in TRICKY + DOTS:
@@ -346,7 +348,7 @@ def main(tier, seed, replay=None):
                 viol.append((pr[k], f"{opid} [{vn}] with {json.dumps(vals, ensure_ascii=False)[:120]}: {dsc}", cls))
     res.counts.update({"evaluations": len(blocks), "distinct_nontrivial": n_obs, "comparisons": n_obs, "traces_validated_against_impl": n_obs,
                        "operations": len(ops), "probes": len(pr),
-                       "rule": "one feature spec (methods GET/PUT/POST/DELETE/PATCH/HEAD; plain, single, multiple and mixed literal/parameter templates; path-item and operation parameters with override; scalar / enum / array parameters with form (explode and not), spaceDelimited, pipeDelimited; string / integer / boolean / array headers; json, optional json, form, text, binary, multipart bodies) generated as client-mod, compiled, and every probe (reserved URL characters, non-ASCII, dot segments, empty arrays, boundary integers) sent through the generated method to a capturing TCP server; the raw request is judged: method, path segments (literals equal, parameter segments percent-decode — with the extracted Coq decoder — to the value and contain no / ? #), query pairs as a multiset against the extracted layout model, headers, body per media type; base URL with and without trailing slash and at the root"})
+                       "rule": "one feature spec (methods GET/PUT/POST/DELETE/PATCH/HEAD/OPTIONS; plain, single, multiple and mixed literal/parameter templates; path-item and operation parameters with override; scalar / enum / array parameters with form (explode and not), spaceDelimited, pipeDelimited; string / integer / boolean / array headers; json, optional json, form, text, binary, multipart bodies) generated as client-mod, compiled, and every probe (reserved URL characters, non-ASCII, dot segments, empty arrays, boundary integers) sent through the generated method to a capturing TCP server; the raw request is judged: method, path segments (literals equal, parameter segments percent-decode — with the extracted Coq decoder — to the value and contain no / ? #), query pairs as a multiset against the extracted layout model, headers, body per media type; base URL with and without trailing slash and at the root"})
     for p in pr[:4]:
         res.sample({"operation": p[0], "values": p[1]})
     res.cov["trusted_base"] = vlib.COMMON_TRUSTED + [
@@ -354,7 +356,7 @@ def main(tier, seed, replay=None):
         "lib/c03.py: construction of request values from the emitted types, the capturing TCP server (tools/arena runner), parsing of the raw request (python urllib for query / form decoding, a small multipart parser)",
         "reqwest / url / serde_urlencoded / http as they run in the arena"]
     res.assumptions = ["PARTIAL: the theorems are about the encodings; that the generated method produces them is observed on the probes, through real sockets on the loopback interface",
-                       "OPTIONS / TRACE operations are C12's recorded generator panic and are not part of the feature spec; values containing the delimiter of a non-exploded array style are not probes (C03_joined_ambiguous_refuted)"]
+                       "TRACE is left out (the parser lists it twice, C05's recorded finding); values containing the delimiter of a non-exploded array style are not probes (C03_joined_ambiguous_refuted)"]
     kf = {k["key"]: k["text"] for k in vlib.known_findings("C03")}
     seen_known, real = set(), []
     for (p, dsc, cls) in viol:
